@@ -10,9 +10,12 @@ D: an oracle independent of the model -- back-door admissibility by *path blocki
    `minimal_adjustment_sets`; and a reference simulation of the program (own DFS) against raise / no-raise and
    against `self.dag` before/after every raising call.
 H: networkx descendants / ancestors / has_path / is_directed_acyclic_graph agree with an own DFS on every graph.
-Supplement (a test, not a proof): moral-graph criterion (what the theorems use as definition of d-separation) ==
-   path-blocking d-separation, both evaluated by the compiled Lean definitions on every candidate set of all DAGs
-   with <= 4 (quick) / 5 (thorough) nodes, and == the Python oracle.
+Supplement: the moral-graph criterion (what the code computes) == path-blocking d-separation is a THEOREM for every
+   finite DAG (Props/C18.lean: dsep_moral_iff_pathblocking, check_iff_pathblocking, check_iff_backdoor_paths,
+   check_eq_backdoorPaths; Lemmas/DagPaths.lean).  What remains a test here: the compiled Lean definitions of both
+   (`check`, `backdoorPaths`) are evaluated on every candidate set of all DAGs with <= 4 (quick) / 5 (thorough)
+   nodes and compared with each other (an executable instance of the theorem) and with the Python path-blocking
+   oracle that gate D uses (this ties D's oracle to the Lean definition `backdoorPaths` the theorem is about).
 """
 import itertools
 
@@ -21,7 +24,10 @@ import numpy as np
 REQUIRED = ['reach_iff', 'desc_iff', 'anc_iff', 'check_iff_admissible', 'check_iff_backdoor', 'check_order_independent', 'listed_iff',
             'listed_iff_set', 'minimal_eq_smallest', 'reject_unchanged', 'arrow_reject_iff', 'arrows_reject_iff',
             'acyclic_inv', 'acyclic_from_init', 'inv_run', 'inv_from_init', 'listed_iff_program',
-            'calculate_reports_current']
+            'calculate_reports_current',
+            # moral-graph criterion <=> path-blocking d-separation, for every finite DAG (Lemmas/DagPaths.lean)
+            'dsep_moral_iff_pathblocking', 'dsepPaths_exec_iff', 'check_iff_pathblocking', 'check_iff_walkblocking',
+            'check_iff_backdoor_paths', 'check_eq_backdoorPaths', 'listed_iff_backdoor_paths']
 RULE = ('graphs: every DAG containing exposure->outcome on 2..5 labelled nodes (1+8+168+8816, both tiers; the thorough '
         'tier draws more orders per graph), each as several programs: add_arrow per arrow, '
         'add_arrows in 1-3 batches, add_from_networkx (optionally after arrows that must be forgotten), with node '
@@ -38,8 +44,9 @@ RULE = ('graphs: every DAG containing exposure->outcome on 2..5 labelled nodes (
         'is admissible and some is not, or the program contains a rejected call')
 ASSUMPTIONS = ['networkx.descendants/ancestors/has_path/is_directed_acyclic_graph compute graph reachability '
                '(measured against an own DFS on every generated graph)',
-               'moral-graph criterion == path-blocking d-separation is classical mathematics outside the theorems; '
-               'tested exhaustively on all DAGs with <= 4/5 nodes by compiled evaluation (supplement), not proved',
+               'moral-graph criterion == path-blocking d-separation is proved for every finite DAG '
+               '(dsep_moral_iff_pathblocking, check_iff_backdoor_paths); the Python path-blocking oracle of gate D is '
+               'compared with the Lean definition backdoorPaths on all DAGs with <= 4/5 nodes (supplement)',
                'node labels are strings in zEpid and natural numbers in the model; the harness maps one to the other']
 
 POOL = ['X', 'Y', 'A', 'B', 'C', 'D', 'L', 'M', 'U', 'V', 'W', 'Z', 'U1', 'U2', 'age', 'sex', 'art', 'cd4', 'dead',
@@ -633,7 +640,8 @@ def supplement(chk, drv, graphs_by_n, stats):
                              'Python oracle disagree', {'edges': edges, 'n': n, 'model': rep})
     chk.k(bad == 0, 'supplement: moral criterion == path blocking on all enumerated DAGs', {'graphs': ng})
     stats['supplement'] = {'graphs': ng, 'candidate_sets': nz, 'disagreements': bad,
-                           'label': 'bounded test by compiled evaluation, not a proof'}
+                           'label': 'executable instance of theorem check_eq_backdoorPaths + tie of the Python oracle to the '
+                                    'Lean definition backdoorPaths (compiled evaluation)'}
 
 
 # ------------------------------------------------------------------ entry points
